@@ -24,6 +24,7 @@ from ..world import find_method, find_message
 from . import c09, c07, c06
 
 ID = "C04"
+UNKNOWN_REPLY_FIELDS = True      # REST replies of a NEWER server (a field this client does not know) must decode all the same
 FD = _d.FieldDescriptor
 
 PROFILE = grammar.profile(
